@@ -799,6 +799,128 @@ def fam_findings():
 
 # ------------------------------------------------------------------------------------------------
 
+# ------------------------------------------------------------------------------------------------
+# option lists, exhaustively: every sequence of up to 2 (quick: sampled beyond 1) / 3 (thorough: sampled) options from the whole
+# vocabulary — repeated options, contradicting values, options the target does not accept, `?` in front of anything — on one plain
+# item per target. Nothing here is left to the random option generator.
+
+OPT_VOCAB_FN = ["no_deps", "no_deps = true", "no_deps = false", "export", "export = false", "unimock", "unimock = false", "unimock = true",
+                "mockall", "mockall = false", "?Send", "mock_api = M", "mock_api = N", "debug = false", "delegate_by = ref", "delegate_by",
+                "?no_deps", "bogus"]
+OPT_VOCAB_TRAIT = ["unimock", "unimock = false", "mockall", "mockall = false", "?Send", "mock_api = M", "mock_api = N", "delegate_by",
+                   "delegate_by = ref", "delegate_by = Borrow", "delegate_by = Deleg", "debug = false", "export", "no_deps", "?mockall", "bogus"]
+OPT_VOCAB_IMPL = ["debug = false", "debug = false, debug = false", "export", "?Send", "bogus"]
+OPT_ITEMS = {
+    "fn": ["fn foo(d: &impl A, a: i32) -> i32 { a }", "async fn foo(d: &App, a: i32) -> i32 { a }"],
+    "mod": ["mod m { pub fn foo(d: &impl A, a: i32) -> i32 { a } pub async fn bar<D>(d: D) {} }"],
+    "trait": ["trait T { fn f(&self, a: i32) -> i32; async fn g(&self); }", "#[async_trait]\npub trait T { async fn f(&self); fn g(&self); }"],
+    "impl": ["impl FooImpl for MyType { fn foo<D>(d: &D, a: i32) -> i32 { a } }"],
+}
+
+
+def fam_opt_exhaustive(rng, tier):
+    import itertools
+    out = []
+    thorough = tier == "thorough"
+
+    def seqs(vocab):
+        one = [(o,) for o in vocab]
+        two = list(itertools.product(vocab, repeat=2))
+        three = list(itertools.product(vocab, repeat=3))
+        if thorough:
+            return one + two + rng.sample(three, min(len(three), 1500))
+        return one + rng.sample(two, min(len(two), 160))
+
+    for tgt in ("fn", "mod"):
+        for item in OPT_ITEMS[tgt]:
+            for sq in seqs(OPT_VOCAB_FN):
+                out.append(Case("opt_exhaustive", ", ".join(("Foo",) + sq), item, macro=rng.choice(["entrait", "entrait", "entrait_export"])))
+    for item in OPT_ITEMS["trait"]:
+        for head in ((), ("FooImpl",)):
+            for sq in seqs(OPT_VOCAB_TRAIT):
+                out.append(Case("opt_exhaustive", ", ".join(head + sq), item, macro=rng.choice(["entrait", "entrait", "entrait_export"])))
+    for item in OPT_ITEMS["impl"]:
+        for pre in ("", "ref ", "dyn "):
+            for o in [""] + OPT_VOCAB_IMPL:
+                out.append(Case("opt_exhaustive", (pre + o).strip(), item))
+    return out
+
+
+# attributes below entrait that the macro recognises by the LAST segment of their path (async_trait, automock): every spelling, alone
+# and next to another attribute, on every target; plus look-alikes that must not be recognised
+SUB_ATTRS = ["#[async_trait]", "#[async_trait::async_trait]", "#[::async_trait::async_trait]", "#[::async_trait::async_trait(?Send)]",
+             "#[prelude::async_trait]", "#[a::b::c::async_trait]", "#[automock]", "#[mockall::automock]", "#[my::automock]",
+             "#[async_trait_not]", "#[async_trait::other]", "#[cfg_attr(all(), async_trait)]", "#[doc = \"async_trait\"]", "#[r#async_trait]"]
+SUB_ITEMS = [("fn", "Foo", "async fn foo(d: &impl A, a: i32) -> i32 { a }"),
+             ("fn", "Foo", "async fn foo(d: &App, a: i32) -> i32 { a }"),
+             ("mod", "Foo", "mod m { pub async fn foo(d: &impl A) {} pub fn bar(d: &impl A) {} }"),
+             ("trait", "", "trait T { async fn f(&self); fn g(&self) -> i32; }"),
+             ("trait", "FooImpl, delegate_by = ref", "trait T { async fn f(&self); fn g(&self) -> i32; }"),
+             ("trait", "FooImpl, delegate_by = Deleg", "trait T { async fn f(&self); }"),
+             ("impl", "", "impl FooImpl for MyType { async fn foo<D>(d: &D) {} }"),
+             ("impl", "ref", "impl FooImpl for MyType { async fn foo<D>(d: &D) {} fn bar<D>(d: &D) {} }")]
+
+
+def fam_subattr_exhaustive(rng):
+    out = []
+    for tgt, attr, item in SUB_ITEMS:
+        for sa in SUB_ATTRS:
+            for shape in ("{sa}\n{item}", "/// doc\n{sa}\n#[allow(unused)]\n{item}", "{sa}\n{sa}\n{item}"):
+                out.append(Case("subattr_exhaustive", attr, shape.format(sa=sa, item=item)))
+    return out
+
+
+# every combination of function qualifiers (in the order the grammar wants them) x visibility x context: a function is a function
+# whatever stands in front of `fn`
+def fam_qualifiers_exhaustive(rng):
+    out = []
+    for const in ("", "const "):
+        for asy in ("", "async "):
+            for uns in ("", "unsafe "):
+                for ext in ("", "extern ", "extern \"C\" ", "extern \"system\" "):
+                    q = const + asy + uns + ext
+                    for vis in ("", "pub ", "pub(crate) ", "pub(in crate::x) "):
+                        f = "%s%sfn foo(d: &impl A, a: i32) -> i32 { a }" % (vis, q)
+                        out.append(Case("qualifiers_exhaustive", "Foo", f))
+                        g = "fn g(d: &impl A) {}"
+                        out.append(Case("qualifiers_exhaustive", "Foo", "mod m { pub %s %s %s }" % (g, f, g.replace("fn g", "fn h"))))
+                        out.append(Case("qualifiers_exhaustive", rng.choice(["", "ref"]),
+                                        "impl FooImpl for MyType { %s %s }" % (f.replace("d: &impl A", "d: &D").replace("fn foo(", "fn foo<D>("), "fn g<D>(d: &D) {}")))
+    return out
+
+
+# every shape of the first (dependency) parameter x generics declaration x context x no_deps
+DEPS_SHAPES = [
+    ("", "d: &D", "<D>"), ("", "d: &D", "<D: A + B>"), ("", "d: &D", "<D> where D: A, D: B"), ("", "d: D", "<D: A>"), ("", "d: &'a D", "<'a, D>"),
+    ("", "d: &mut D", "<D>"), ("", "d: &&D", "<D>"), ("", "d: (&D)", "<D>"), ("", "d: &(D)", "<D>"), ("", "mut d: D", "<D>"), ("", "_: &D", "<D>"),
+    ("", "&d: &D", "<D: Copy>"), ("", "d: &impl A", ""), ("", "d: impl A + B", ""), ("", "d: &(impl A + B)", ""), ("", "d: &'static impl A", ""),
+    ("", "d: &App", ""), ("", "d: App", ""), ("", "d: &crate::App", ""), ("", "d: &App<i32>", ""), ("", "d: &::ext::App", ""), ("", "d: &dyn A", ""),
+    ("", "d: &[D]", "<D>"), ("", "d: (D, D)", "<D>"), ("", "d: &Box<D>", "<D>"), ("", "d: &D::Assoc", "<D: X>"), ("", "d: &<D as X>::Assoc", "<D: X>"),
+    ("", "d: &Self", ""), ("", "d: &'a (dyn A + Send)", "<'a>"), ("", "d: *const D", "<D>"), ("", "d: fn(i32) -> i32", ""), ("", "d: &impl Fn(i32) -> i32", ""),
+    ("", "d: &D, e: &D", "<D: A>"), ("", "d: &E, e: &D", "<D, E: A>"), ("", "", ""), ("", "&self", ""), ("", "self: &Self, d: &D", "<D>"),
+]
+
+
+def fam_deps_exhaustive(rng):
+    out = []
+    for _, first, gens in DEPS_SHAPES:
+        for nd in (False, True):
+            attr = "Foo" + (", no_deps" if nd else "")
+            params = ", ".join([p for p in (first, "a: i32") if p])
+            where = ""
+            g = gens
+            if " where " in gens:
+                g, where = gens.split(" where ")
+                where = " where " + where
+            f = "fn foo%s(%s) -> i32%s { a }" % (g, params, where)
+            out.append(Case("deps_exhaustive", attr, f))
+            out.append(Case("deps_exhaustive", attr, "async " + f))
+            out.append(Case("deps_exhaustive", attr, "mod m { pub %s pub fn other(q: &impl B) {} }" % f))
+            if not nd:
+                out.append(Case("deps_exhaustive", rng.choice(["", "ref"]), "impl FooImpl for MyType { %s }" % f))
+    return out
+
+
 def build_corpus(seed, tier):
     rng = random.Random(seed)
     thorough = tier == "thorough"
@@ -815,6 +937,10 @@ def build_corpus(seed, tier):
     cases += fam_lattice(rng, sample=None if thorough else 500)
     cases += fam_c17(rng, 150 * k)
     cases += fam_malformed(rng, 80 * k)
+    cases += fam_opt_exhaustive(rng, tier)
+    cases += fam_subattr_exhaustive(rng)
+    cases += fam_qualifiers_exhaustive(rng)
+    cases += fam_deps_exhaustive(rng)
     for i, c in enumerate(cases):
         c.cid = i
     return cases
